@@ -55,7 +55,7 @@ var verifyReqs = []verifyReq{
 	req("BufConfig", "Verify", "1 ≤ BufferSize", "grow/Write allocate BufferSize bytes; WrappedParser.Reset(nil) must not fail", 1, "BufferSize", -1),
 	req("BufConfig", "Verify", "BufferSize ≤ MaxUint32 − 7", "buffer positions are stored as uint32 (hashEntry.pos)", -(1<<32 - 1 - 7), "BufferSize", 1),
 	req("BufConfig", "Verify", "0 ≤ ShrinkSize", "Shrink keeps ShrinkSize bytes", 0, "ShrinkSize", -1),
-	req("BufConfig", "Verify", "ShrinkSize < BufferSize", "WrappedParser.Parse panics(\"unexpected ErrFullBuffer\") when Shrink cannot free space", 1, "ShrinkSize", 1, "BufferSize", -1),
+	req("BufConfig", "Verify", "ShrinkSize < BufferSize", "WrappedParser.Parse answers the reader's data with ErrFullBuffer when Shrink cannot free space (a buffer that is full of parsed data must have room after Shrink)", 1, "ShrinkSize", 1, "BufferSize", -1),
 	req("BufConfig", "Verify", "0 ≤ WindowSize", "window guard o ≤ WindowSize", 0, "WindowSize", -1),
 	req("BufConfig", "Verify", "1 ≤ BlockSize", "Parse must make progress (n ≥ 1)", 1, "BlockSize", -1),
 	req("hashConfig", "Verify", "2 ≤ InputLen", "minimum match length min(3, InputLen) ≥ 2; mask 1<<(8·InputLen)−1", 2, "InputLen", -1),
@@ -286,6 +286,73 @@ func viaReq(reqs ...verifyReq) func(c *Ctx, site *ssa.Panic) (bool, string) {
 	}
 }
 
+// both: two discharge checks, both must hold. A discharge that quotes a Verify requirement also needs the panic to
+// stand behind the very test the requirement excludes (a guard with the sense of its comparison turned round is
+// not excluded by anything).
+func both(a, b func(c *Ctx, site *ssa.Panic) (bool, string)) func(c *Ctx, site *ssa.Panic) (bool, string) {
+	return func(c *Ctx, site *ssa.Panic) (bool, string) {
+		if ok, why := a(c, site); !ok {
+			return false, why
+		}
+		return b(c, site)
+	}
+}
+
+// guardedByFailedResetNil: the panic is reached only under err != nil for the error of a Reset call that was
+// given a nil slice.
+func guardedByFailedResetNil(c *Ctx, site *ssa.Panic) (bool, string) {
+	fn := site.Parent()
+	fi := c.info(fn)
+	for _, cd := range fi.condsAt(site.Block()) {
+		u := unNot(cd)
+		bo, ok := u.V.(*ssa.BinOp)
+		if !ok {
+			continue
+		}
+		for _, v := range []ssa.Value{bo.X, bo.Y} {
+			call, isCall := v.(*ssa.Call)
+			if !isCall || !isErrorType(call.Type()) {
+				continue
+			}
+			name := ""
+			if call.Call.IsInvoke() {
+				name = call.Call.Method.Name()
+			} else if callee := call.Call.StaticCallee(); callee != nil {
+				name = callee.Name()
+			}
+			if name != "Reset" || len(call.Call.Args) == 0 {
+				continue
+			}
+			last := call.Call.Args[len(call.Call.Args)-1]
+			if k, isK := last.(*ssa.Const); !isK || k.Value != nil {
+				continue
+			}
+			if isNilCmp(cd, call) == +1 {
+				return true, ""
+			}
+		}
+	}
+	return false, "the panic is not guarded by err != nil for the error of a Reset(nil) call (with the test turned round it is reached on every successful reset)"
+}
+
+// guardedByLenAbove: the branch conditions of the panic contradict len(x) ≤ MaxInt32 for a slice length x that
+// occurs in them: it is reached only for a length above the limit the configuration excludes.
+func guardedByLenAbove(c *Ctx, site *ssa.Panic) (bool, string) {
+	fn := site.Parent()
+	fi := c.info(fn)
+	conds := fi.condsAt(site.Block())
+	for _, f := range fi.factsOf(conds) {
+		for a := range f.L.t {
+			if strings.HasPrefix(a, "len(") {
+				if fi.refute(conds, []Fact{{linAtom(a).addc(-(1<<31 - 1)), LE}}, 0) {
+					return true, ""
+				}
+			}
+		}
+	}
+	return false, "the branch conditions of the panic do not say that a slice length exceeds MaxInt32 (a guard with the comparison turned round, or on another quantity, is not excluded by the configuration check)"
+}
+
 // callersPassEqualLens: every static call of fn passes slices a, b (parameter
 // indexes) with len(a) == len(b) by construction (b allocated with len(a), or
 // both loaded from equal-length fields).
@@ -347,11 +414,11 @@ func (c *Ctx) panicTable() []panicDischarge {
 		// no entry for a panic("unexpected ErrFullBuffer") in WrappedParser.Parse: ReadFrom's own full-buffer status is
 		// excluded by Verify (ShrinkSize < BufferSize), but the reader's own error may be that very value (D28)
 		{"lz.(*WrappedParser).Reset", "", "verify", "Reset(nil) fails only for len(data) > BufferSize; len(nil) = 0 and BufferSize ≥ 1",
-			viaReq(reqByText("BufConfig", "1 ≤ BufferSize"))},
+			both(guardedByFailedResetNil, viaReq(reqByText("BufConfig", "1 ≤ BufferSize")))},
 		{"lz.(*gsap).sort", "n too large", "verify", "len(Data) ≤ BufferSize ≤ MaxInt32",
-			viaReq(reqByText("GSAPConfig", "BufferSize ≤ MaxInt32"))},
+			both(guardedByLenAbove, viaReq(reqByText("GSAPConfig", "BufferSize ≤ MaxInt32")))},
 		{"lz.(*optSuffixArrayParser).computeEdges", "len(data)=", "verify", "len(Data) ≤ BufferSize ≤ MaxInt32",
-			viaReq(reqByText("OSAPConfig", "BufferSize ≤ MaxInt32"))},
+			both(guardedByLenAbove, viaReq(reqByText("OSAPConfig", "BufferSize ≤ MaxInt32")))},
 		{"lz.(*bitset).insert", "negative", "construction", "arguments are suffix-array ranks int(isa[i]) ≥ 0",
 			func(c *Ctx, site *ssa.Panic) (bool, string) { return c.bitsetArgsNonNeg(site.Parent()) }},
 		{"suffix.(config).sort", "is different from len(sa)", "construction", "sa is allocated/re-sliced with len(Data)", callersEqualLen("sort", 1, 2)},
@@ -379,6 +446,25 @@ func (c *Ctx) isIsaPath(p string) bool {
 	return false
 }
 
+// isIsaElem: addr is the address of an element of the inverse suffix array (the field itself, a re-slice of it, or
+// a local the function installs in the field).
+func (c *Ctx) isIsaElem(addr ssa.Value) bool {
+	if ia, ok := addr.(*ssa.IndexAddr); ok {
+		g := c.gsap()
+		if g.err == "" && g.isaF != nil {
+			if f := loadedField(ia.X); f != nil {
+				return f == g.isaF
+			}
+		}
+	}
+	if ia, ok := addr.(*ssa.IndexAddr); ok {
+		_, p, okp := pathStr(ia.X)
+		return okp && c.isIsaPath(p)
+	}
+	_, p, ok := pathStr(addr)
+	return ok && c.isIsaPath(p)
+}
+
 // bitsetArgsNonNeg: every call of insert passes int(x) with x loaded from an []int32 whose stores are range indexes.
 func (c *Ctx) bitsetArgsNonNeg(insert *ssa.Function) (bool, string) {
 	n := 0
@@ -399,7 +485,7 @@ func (c *Ctx) bitsetArgsNonNeg(insert *ssa.Function) (bool, string) {
 					if !ok {
 						return false, "argument is not a suffix-array rank at " + c.pos(in.Pos())
 					}
-					if _, p, ok := pathStr(ld.X); !ok || !c.isIsaPath(p) {
+					if !c.isIsaElem(ld.X) {
 						return false, "argument is not loaded from the inverse suffix array at " + c.pos(in.Pos())
 					}
 					continue
@@ -428,7 +514,7 @@ func (c *Ctx) bitsetArgsNonNeg(insert *ssa.Function) (bool, string) {
 						if !ok {
 							return false, "argument is not a suffix-array rank at " + c.pos(in.Pos())
 						}
-						if _, p, ok := pathStr(ld.X); !ok || !c.isIsaPath(p) {
+						if !c.isIsaElem(ld.X) {
 							return false, "argument is not loaded from the inverse suffix array at " + c.pos(in.Pos())
 						}
 					}
@@ -451,7 +537,7 @@ func (c *Ctx) bitsetArgsNonNeg(insert *ssa.Function) (bool, string) {
 				if !ok {
 					continue
 				}
-				if _, p, ok := pathStr(ia.X); !ok || !c.isIsaPath(p) {
+				if !c.isIsaElem(ia) {
 					continue
 				}
 				if !c.nonneg(st.Val) {
@@ -795,7 +881,7 @@ func ruleLoopsParser(c *Ctx) {
 			case c.isSliceShrinkLoop(fi, l):
 				c.ok(key, pos, "T-SLICE: the loop continues while len(q) ≥ c and re-slices q = q[k:], k ≥ 1")
 			case c.isBacktrackLoop(fi, l):
-				c.ok(key, pos, "T-BACKTRACK: i -= d[i].m with 1 ≤ m ≤ i at every DP store (R-BLOCKCLIP dp-store)")
+				c.ok(key, pos, "T-BACKTRACK: i -= d[i].m with 1 ≤ m ≤ i at every DP store (R-DP-STEP); every entry the walk visits has been stored, because the literal step reaches each position (R-DP-LIT)")
 			case c.isFillLoop(fi, l):
 				c.assumed(key, pos, "T-FILL: left on reader error or full buffer; progress relies on the io.Reader not returning (0, nil) forever")
 			case c.isWrapLoop(fi, l):
@@ -1060,12 +1146,23 @@ func (c *Ctx) isSliceShrinkLoop(fi *FuncInfo, l *Loop) bool {
 			continue
 		}
 		sl, ok := q.Edges[i].(*ssa.Slice)
-		if !ok || sl.X != q || sl.Low == nil {
+		if !ok || sl.X != q {
 			return false
 		}
-		if k, ok := constInt(sl.Low); !ok || k < 1 {
+		// q = q[k:] with k ≥ 1, or q = q[:len(q)−k] with k ≥ 1: the slice gets strictly shorter
+		if sl.Low != nil && sl.High == nil {
+			if k, ok := constInt(sl.Low); ok && k >= 1 {
+				continue
+			}
 			return false
 		}
+		if sl.Low == nil && sl.High != nil {
+			d := fi.lenOf(q).sub(fi.lin(sl.High))
+			if d.isConst() && d.c >= 1 {
+				continue
+			}
+		}
+		return false
 	}
 	return true
 }
